@@ -103,7 +103,10 @@ def check(ctx):
         run.add('C10.encapsulee', 'dznpy.adv_shell', f'Builder.{meth}', f'final_construct_fn.{attr}', ok,
                 f'FinalConstruct() is emitted ({attr})' if ok else f'FinalConstruct() is not emitted ({attr})')
 
-
-def check_thorough(ctx):
+    # ---- C10.selector (clang AST of the instantiated support header) -----------------------------------------------------------
     from ..embedded_cxx import selector_rules
     selector_rules(ctx, 'C10')
+
+
+def check_thorough(ctx):
+    pass
